@@ -3,9 +3,11 @@
 let flags_of_variant v =
   match v with
   | "repaired" -> repaired
-  | "d_stale" | "head" -> head            (* /repo HEAD: the one open finding *)
-  | "defective" -> defective              (* /repo before the C11 fixes; not used by the check *)
+  | "d_head" | "head" -> head                      (* /repo HEAD: the open findings *)
+  | "d_stale" -> { repaired with f_stale = true }   (* HEAD once the other open findings are fixed *)
+  | "defective" -> defective                        (* /repo before the C11 fixes; not used by the check *)
   | _ -> failwith ("unknown variant " ^ v)
+let variant_name = ref "repaired"
 
 let z_of_decimal s = match n_of_decimal s with N0 -> Z0 | Npos p -> Zpos p
 let two64_n = n_of_decimal "18446744073709551616"
@@ -143,12 +145,20 @@ let run_hist fl toks =
     let exp_ls = sorted_strings (List.map (show_lease g) (expected_leases g y.y_live)) in
     String.concat " " [ head; "store=[" ^ String.concat ";" st ^ "]"; "leases=[" ^ String.concat ";" ls ^ "]";
                         "avail=[" ^ String.concat ";" av ^ "]";
-                        "conv=" ^ (if exp_st = st then "ok" else "bad"); "pools=" ^ (if exp_ls = ls then "ok" else "bad") ]
+                        (* the repaired variant states the property's verdict: once every message of both SRGs has been
+                           delivered (or covered by a bulk sync) store and pools MUST be right; if the repaired model
+                           itself got it wrong the line says so and cannot match the implementation silently *)
+                        (let complete = List.for_all (fun g -> int_of_nat (next_of y (n_of_int g)) = List.length (sent_of (n_of_int g) y.y_sent)) [1; 2]
+                                        && int_of_nat y.y_panics = 0 in
+                         let verdict ok = if ok then "ok" else if !variant_name = "repaired" && complete then "MODEL-DOES-NOT-CONVERGE" else "bad" in
+                         "conv=" ^ verdict (exp_st = st) ^ " pools=" ^ verdict (exp_ls = ls)) ]
   | _ -> "badline"
 
 let () =
   let lines = read_lines Sys.argv.(1) in
-  let fl = flags_of_variant (if Array.length Sys.argv > 3 then Sys.argv.(3) else "repaired") in
+  let vn = if Array.length Sys.argv > 3 then Sys.argv.(3) else "repaired" in
+  variant_name := vn;
+  let fl = flags_of_variant vn in
   List.iter (fun line ->
       match tokens line with
       | [] -> ()
